@@ -237,6 +237,21 @@ class Mon(object):
                 LAST_HISTORY.append('object #%d: an earlier output assertion was parsed before the sub-specifications were added' % self.oid)
             except Exception:
                 self.spec = build_spec(kind, sd)
+        if parse and sd.get('earlier_subspecs') and sd.get('subspecs'):
+            # the object was parsed with earlier definitions of its sub-specification names; the final definitions are
+            # then added with add_sub_spec() and the (unchanged) main text is parsed again by the regular parse() below
+            try:
+                spec0 = build_spec(kind, dict(sd, subspecs=sd['earlier_subspecs']))
+                spec0.parse()
+                for sub in sd['subspecs']:
+                    spec0.add_sub_spec(sub)
+                self.spec = spec0
+                REC.counts['history:sub-specifications-redefined-after-a-parse'] += 1
+                LAST_HISTORY.append('object #%d: parsed with earlier definitions %r of its sub-specifications, which were '
+                                    'then redefined with add_sub_spec()' % (self.oid, sd['earlier_subspecs']))
+            except Exception as e:
+                REC.counts['history-raised:redefinition:' + type(e).__name__] += 1
+                self.spec = build_spec(kind, sd)
         if hist is not None and hist.random() < 0.3:
             self._refused_declaration(hist)
         if hist is not None and kind.startswith('dt') and hist.random() < 0.3:
